@@ -30,9 +30,13 @@ var govcTotalDocs = []string{
 	`<svg><text>x</text></svg>`,
 	`<figure><picture><source srcset="a 1x"></picture></figure>`,
 	`<blockquote><pre>` + govcWords + `</pre></blockquote>`,
+	// pagers whose URLs change length under case folding (U+0130), with next/prev vocabulary
+	`<html><head><title>İstanbul</title></head><body><h1>İstanbul</h1><div class="article"><p>` + govcWords + `</p></div><div class="pager"><a href="/wiki/İstanbul/2">2</a> <a href="/wiki/İstanbul/2" class="next">next page</a> <a href="http://example.com/wiki/İstanbul" class="prev">previous page</a> <a href="http://example.com/wiki/İstanbul/3" class="next">next page</a></div></body></html>`,
+	// pretty-printed numeric pager: white-space-only text nodes between the list items and links
+	"<html><body><p>" + govcWords + "</p><ul class=\"pager\">\n  <li>\n    <a href=\"/article/istanbul?page=1\">1</a>\n  </li>\n  <li>\n    <a href=\"/article/istanbul?page=2\">2</a>\n  </li>\n  <li>\n    <a href=\"/article/istanbul?page=3\">3</a>\n  </li>\n</ul></body></html>",
 }
 
-var govcTotalURLs = []string{"", "http://ⱥ/x", "http://example.com/a/b/", "http://example.com/?page=1", "mailto:x@y", "http://example.com:8080/%2F/x?y=%zz"}
+var govcTotalURLs = []string{"", "http://ⱥ/x", "http://example.com/a/b/", "http://example.com/?page=1", "mailto:x@y", "http://example.com:8080/%2F/x?y=%zz", "http://example.com/wiki/İstanbul/2", "http://example.com/article/istanbul?page=2"}
 
 var govcTotalEvals, govcTotalNontrivial int
 
@@ -60,7 +64,7 @@ func govcCheckTotal(t *testing.T, what string, f func() (*Result, error)) {
 
 func TestGovcTotalityReplay(t *testing.T) {
 	defer func() {
-		fmt.Printf("GOVC-CASES evaluations=%d distinct_nontrivial=%d rule=%s\n", govcTotalEvals, govcTotalNontrivial, "14 documents (fragments, odd roots, hostile pagers) x 6 page URLs x 2 algorithms x {ApplyForReader, every sub-element and detached clone as root, children of the document node, nil options} + hand-built nodes; non-trivial = a result (not an error) was returned")
+		fmt.Printf("GOVC-CASES evaluations=%d distinct_nontrivial=%d rule=%s\n", govcTotalEvals, govcTotalNontrivial, "16 documents (fragments, odd roots, hostile and pretty-printed pagers) x 8 page URLs x 2 algorithms x {ApplyForReader, every sub-element and detached clone as root, children of the document node, nil options} + hand-built nodes; non-trivial = a result (not an error) was returned")
 		fmt.Printf("GOVC-SAMPLE Apply on every element of %q as root\n", govcTotalDocs[1])
 	}()
 	for di, src := range govcTotalDocs {
